@@ -254,7 +254,7 @@ def main(tier, only=None):
     negative_controls(run)
     # ---- S2C: lattice x accelerators through the real API
     extra = []
-    nrand = 24 if tier == "quick" else 400
+    nrand = 24 if tier == "quick" else 1200
     for _ in range(nrand):
         r = rng.random()
         if r < 0.4:
@@ -263,6 +263,8 @@ def main(tier, only=None):
             extra.append(rng.choice([1, 2, 3, 4, 15, 16, 255, 256]) * 65536 + rng.choice([-2, -1, 0, 1, 2, 3]))
         else:
             extra.append(rng.randrange(4096, 1 << (20 if tier == "quick" else 22)))
+    if tier == "thorough":
+        extra += list(range(65, 1025))            # every length up to 1024 (accelerators in rotation below)
     full_accel = rng.choice(ACCELS)
     cases = []
     for n in lens:
@@ -271,7 +273,7 @@ def main(tier, only=None):
                 continue            # quick: one accelerator per multi-megaword length
             cases.append((a, n))
     for i, n in enumerate(extra):
-        accs = ACCELS if tier == "thorough" and n < 300000 else [ACCELS[(i + sd) % 6]]
+        accs = ACCELS if tier == "thorough" and i < nrand and n < 300000 else [ACCELS[(i + sd) % 6]]
         cases += [(a, n) for a in accs]
     big = None
     if any(n >= MAXLEN - 1 for _, n in cases):
@@ -291,7 +293,7 @@ def main(tier, only=None):
                         "tail_match": ev["tail_match"] if ev["mode"] == "digest" else None})
     big = None
     # ---- compiled models
-    nmodels = 18 if tier == "quick" else 240
+    nmodels = 18 if tier == "quick" else 400
     mev, mmeta = model_records(run, nmodels, sd, len(events))
     events += mev
     meta.update(mmeta)
